@@ -9,7 +9,13 @@ import (
 // Plan generator of the `world` scenario (swarm style: sizes, key algorithms,
 // fault kinds, deviation kinds and workload mix are drawn per run).
 
-var cmdSegments = []string{"a", "ab", "abc", "b", "bc", "c", "foo", "foobar"}
+var cmdSegments = []string{"a", "ab", "abc", "b", "bc", "c", "foo", "foobar", "s", "\u017f", "\u03bb\u03bf\u03b3\u03bf\u03c2", "\u03bb\u03bf\u03b3\u03bf\u03c3", "\u00e9", "e\u0301", "i", "\u0131"}
+
+// cmdAlike: pairs of different lower-case segments that compare equal under Unicode case
+// folding or normalisation (long s / s, final sigma / sigma, NFC / NFD e-acute, dotless i / i).
+// They are different segments: neither command covers the other.
+var cmdAlike = map[string]string{"s": "\u017f", "\u017f": "s", "\u03bb\u03bf\u03b3\u03bf\u03c2": "\u03bb\u03bf\u03b3\u03bf\u03c3", "\u03bb\u03bf\u03b3\u03bf\u03c3": "\u03bb\u03bf\u03b3\u03bf\u03c2",
+	"\u00e9": "e\u0301", "e\u0301": "\u00e9", "i": "\u0131", "\u0131": "i"}
 
 type wgen struct {
 	r     *Rand
@@ -116,7 +122,12 @@ func notCovered(r *Rand, base string) (string, string) {
 		prefix = "/" + strings.Join(segs[:len(segs)-1], "/")
 	}
 	kinds := []string{"parent", "sibling", "textprefix", "top", "emptyseg", "emptyseg"}
+	if cmdAlike[last] != "" {
+		kinds = append(kinds, "alike", "alike", "alike")
+	}
 	switch Pick(r, kinds) {
+	case "alike":
+		return prefix + "/" + cmdAlike[last], "alike"
 	case "emptyseg":
 		// the same command with one slash doubled: another segment list, neither covers the other
 		if len(segs) >= 2 {
